@@ -9,8 +9,13 @@ LEVEL_NOTE = ("theorems are about the Lean model; the model is tied to /repo by 
 def _run_shard(binp, harness_prop, driver, tier, seed, outdir, run_driver, extra_args, timeout):
     os.makedirs(outdir, exist_ok=True)
     env = dict(os.environ)
-    p = subprocess.run([binp, harness_prop, "-tier", tier, "-seed", str(seed), "-out", outdir] + extra_args,
-                       stdout=subprocess.PIPE, stderr=subprocess.STDOUT, text=True, env=env, timeout=timeout)
+    try:
+        p = subprocess.run([binp, harness_prop, "-tier", tier, "-seed", str(seed), "-out", outdir] + extra_args,
+                           stdout=subprocess.PIPE, stderr=subprocess.STDOUT, text=True, env=env, timeout=timeout)
+    except subprocess.TimeoutExpired as te:
+        out = te.stdout if isinstance(te.stdout, str) else (te.stdout or b"").decode("utf-8", "replace")
+        return {"crash": f"the harness did not finish within {timeout} s (a call into the code under test never returned?)\n" + out[-2000:],
+                "seed": seed}
     if p.returncode != 0:
         return {"crash": p.stdout[-3000:], "seed": seed}
     run_driver(driver, os.path.join(outdir, "ops.txt"), os.path.join(outdir, "model.txt"))
